@@ -161,5 +161,37 @@ Definition utf8_ref_len (c : Z) : Z :=
 Definition prim_utf8_ref (p : list Z) (i : Z) : region :=
   mkreg (data_cap (Z.of_nat (length p))) i (utf8_ref_len (nth (Z.to_nat i) p 0)).
 
+(** the REPAIRED sexp_string_utf8_ref (fixes/C01-utf8-truncated-lead-byte.patch): after the two one-byte cases a third test
+    `sexp_utf8_initial_byte_count( *p) > size - i` answers "truncated utf8 sequence"; only then the continuation bytes are
+    read.  [p] = the bytes of the string (any bytes), [i] = the cursor (0 <= i < size checked by the opcode). *)
+Definition prim_utf8_ref_checked (p : list Z) (i : Z) : outcome :=
+  let size := Z.of_nat (length p) in
+  let c := nth (Z.to_nat i) p 0 in
+  if c <? 128 then POk [mkreg (data_cap size) i 1]
+  else if (c <? 192) || (247 <? c) then POk [mkreg (data_cap size) i 1]       (* "invalid utf8 byte": only *p was read *)
+  else if size - i <? utf8_ref_len c then PErr ERange                          (* "truncated utf8 sequence" *)
+  else POk [mkreg (data_cap size) i (utf8_ref_len c)].
+
+(** sexp_utf8_initial_byte_count (sexp.c:1234-1238): 1, 2, or ((c>>4)&1)+3 - for the bytes F8..FF that is 4 as well *)
+Definition utf8_initial_count (c : Z) : Z :=
+  if c <? 192 then 1 else if c <? 224 then 2 else ((c / 16) mod 2) + 3.
+
+(** sexp_string_utf8_set (eval.c:2072-2108), the resize branch, entered with 0 <= i < size and a character of
+    [new_len] bytes: old_len comes from the lead byte at i; [clamp] = the repaired code, which cuts old_len down to
+    the bytes that are left.  Regions: memcpy(q, data, i) [read, write]; memcpy(q+i+new_len, p+old_len,
+    len-i-new_len+1) [read incl. the terminator, write]; the new character at q+i. *)
+Definition prim_utf8_set (clamp : bool) (p : list Z) (i new_len : Z) : list region :=
+  let size := Z.of_nat (length p) in
+  let c := nth (Z.to_nat i) p 0 in
+  let old0 := utf8_initial_count c in
+  let old_len := if clamp && (size - i <? old0) then size - i else old0 in
+  if old_len =? new_len then [mkreg (data_cap size) i new_len]                 (* written in place *)
+  else
+    let len := size + (new_len - old_len) in
+    let tail := len - i - new_len + 1 in
+    [mkreg (data_cap size) 0 i; mkreg (data_cap len) 0 i;
+     mkreg (data_cap size) (i + old_len) tail; mkreg (data_cap len) (i + new_len) tail;
+     mkreg (data_cap len) i new_len].
+
 (** part 3 (stack growth) has no hand-written model: Gen/C01_Stack.v is translated from vm.c and
     C01/StackProofs.v proves the policy about the translated functions directly. *)
